@@ -16,14 +16,15 @@ import tie
 CONFIG = {
     'C01': dict(profiles=['tasks', 'mixed'], fwd_tags=['task', 'horizon', 'problem'], bwd=False, o1=False,
                 spec=['C01/'], n=(160, 3000)),
-    'C02': dict(profiles=['resources', 'resources', 'mixed'], fwd_tags=['task', 'overlap', 'work'], bwd=False, o1=False,
+    'C02': dict(profiles=['resources', 'resources', 'late', 'mixed'], fwd_tags=['task', 'overlap', 'work'], bwd=False, o1=False,
                 spec=['C02/'], n=(180, 3000)),
     'C03': dict(profiles=['taskcons', 'taskcons', 'mixed'], fwd_tags=['cons'], bwd=False, o1=False,
                 spec=['C03/'], n=(210, 4000)),
     'C04': dict(profiles=['rescons', 'rescons', 'late', 'mixed'], fwd_tags=['cons'], bwd=False, o1=False,
                 spec=['C04/'], n=(240, 4000)),
-    'C06': dict(profiles=['optional', 'optional', 'mixed'], fwd_tags=['task', 'cons', 'horizon', 'overlap'], bwd=True, o1=False,
-                spec=['C06/', 'C01/', 'C02/'], n=(180, 3000)),
+    'C06': dict(profiles=['optional', 'optional', 'optional_ind', 'mixed'], fwd_tags=['task', 'cons', 'horizon', 'overlap', 'ind', 'buf'], bwd=True, o1=False,
+                spec=['C06/', 'C01/', 'C02/', 'C08/', 'C09/'], n=(240, 4000), findings_from=['F13', 'F38'],
+                exclude_kinds=['nb_tasks_late', 'nb_tasks_cumulative', 'flowtime_single_resource', 'idle']),
     'C10': dict(profiles=['fol', 'fol', 'mixed'], fwd_tags=['cons'], bwd=True, o1=False,
                 spec=['C10/'], n=(210, 4000)),
     'C08': dict(profiles=['indicators', 'indicators', 'objectives', 'mixed'], fwd_tags=['ind', 'cons', 'obj'], bwd=True, o1=False,
@@ -190,9 +191,13 @@ def run(ctx, replay=None):
             else:
                 stats['bwd_other'] += 1
         for sb in r['spec_bad']:
+            if clause_kind(sb['key']) in cfg.get('exclude_kinds', ()):
+                continue
             cands.append((progs[i], sb['key'], sb['witness'], i))
     # spec-sweep candidates: confirm in Coq, classify
     findings = common.load_findings(ctx.prop)
+    if cfg.get('findings_from'):
+        findings += [f for f in common.load_findings(None) if f['id'] in cfg['findings_from']]
     open_kinds = {f['clause_kind']: f for f in findings if f['status'] == 'open'}
     confirmed = confirm_in_coq(ctx, [(p, k, w) for p, k, w, _ in cands[:40]])
     new_viol = 0
